@@ -1314,7 +1314,7 @@ def theory_BER(
                     
                     SER = SER(threshold * mu_ON + (1 - threshold) * mu_OFF)
                 else:
-                    SER = SER(np.linspace(mu_OFF, mu_ON, 5000)).min()
+                    SER = np.nanmin(SER(np.linspace(mu_OFF, mu_ON, 5000)))
     
             elif decision.lower()=='soft':
                 SER = 1-1/(2*pi)**0.5*quad(lambda x: (1-Q((mu_ON-mu_OFF+s[1]*x)/s[0]))**(M-1)*np.exp(-x**2/2),-np.inf,np.inf)[0]
@@ -1333,7 +1333,7 @@ def theory_BER(
                 
                 BER = BER(threshold * mu_ON + (1 - threshold) * mu_OFF)
             else:
-                BER = BER(np.linspace(mu_OFF, mu_ON, 5000)).min()
+                BER = np.nanmin(BER(np.linspace(mu_OFF, mu_ON, 5000)))
     
         else:
             raise KeyError(f'The modulation type "{modulation}" is invalid.')
